@@ -39,6 +39,15 @@ def _c05(prop, cfg, ops, log, outcome):
     segs, _ = _iterations(log)
     p = period_us(cfg)
     last = None
+    # driver-station state as of the moment each record was logged (before that record's own events)
+    ev = index_events(ops)
+    ds = {"enabled": False, "mode": "teleop"}
+    ds_at = {}
+    for i, r in enumerate(log):
+        ds_at[i] = "disabled" if not ds["enabled"] else ds["mode"]
+        for act in list(ev.get((r[0], r[1]), ())) + list(ev.get((r[0], "*"), ())):
+            if act[0] == "ds":
+                ds = {"enabled": bool(act[1]), "mode": act[2]}
     for (a, b) in segs:
         w = log[b]
         body = log[a:b]
@@ -82,6 +91,10 @@ def _c05(prop, cfg, ops, log, outcome):
         rank = [1 if s.endswith(".execute") else 2 if ".fb." in s else 3 if s == "robot.robotPeriodic" else 0 for s in sites]
         if rank != sorted(rank):
             _fail(prop, "iteration_order", a + k, f"iteration ran {sites}")
+        # the mode being run is the one the driver station asked for when the iteration began
+        want = ds_at.get(a + k)
+        if want is not None and want != mode:
+            _fail(prop, "mode_follows_driver_station", a + k, f"the driver station said {want!r} when this iteration began, but the robot ran a {mode!r} iteration: {sites[:3]}...")
         # one iteration per period: inside a mode session consecutive alarms are exactly one period apart
         if last is not None and k == 0 and w[3] - last[3] != p:
             _fail(prop, "alarm_grid", b, f"consecutive notifier alarms {last[3]} -> {w[3]} are not one period ({p} us) apart")
@@ -205,7 +218,7 @@ def _c10(prop, cfg, ops, log, outcome):
             # end of an iteration: was it an enabled one?
             body = log[seg_start:i]
             mode = body[-1][3] if body else None
-            if mode in ("teleop", "auto") and any(x[0].endswith(".execute") or x[0] == "robot.robotPeriodic" for x in body):
+            if mode in ("teleop", "auto"):
                 for k in marked:
                     cur[k] = marked[k]
             seg_start = i + 1
@@ -265,6 +278,10 @@ def _c11(prop, cfg, ops, log, outcome):
         for key in got:
             if key not in expect:
                 _fail(prop, "entry_unexpected", i, f"wait#{r[1]}: {key} holds {got[key]!r} although its getter never returned")
+        # another client may overwrite an entry while the loop sleeps: that is then the value it holds
+        for act in list(ev.get(("wait", r[1]), ())) + list(ev.get(("wait", "*"), ())):
+            if act[0] == "clobber" and act[1] in expect:
+                expect[act[1]] = act[2]
 
 
 def fbs_type(fbs, key):
